@@ -12,87 +12,101 @@ Definition show_fres (r : fres) : string :=
   end.
 Definition check (rs : list rune) : string := digest (show_fres (format_res rs)).
 Definition full (rs : list rune) : string := show_fres (format_res rs).
-Eval vm_compute in ("<<<M1586>>>" ++ check (runes_of_ascii "MetaData Logon {
-    char[] u8x,
-    matchKey pack,
-    u8 int ``,
-    char[007] msg_type,
-    BodyLength o,
-    string_ crc `a\`,
+Eval vm_compute in ("<<<M5>>>" ++ check (runes_of_ascii "MetaData  asx {char[] MetaDataX ,
+lengthOf Z9_	, crc
+    Foo ,char[ 4294967296]
+BodyLength , Foo leftPad `doc`, tag // a // b
+u128 , } root packet
+    stringy { // trailing space 
+match Header as
+    repeatCount	{ [ ""{,}""] :
+Header
+/// triple
+//
+,255 :repeatCount , 00 :pack, 1 : trueish
+    , 7
+    : A }
+    ,
+T
+    {Z9_
+`
+` ,
+} ,
+    int16 o
+@calculatedFrom(
+""it's""
+) `line1
+line2`	, match zchar
+as As{ ""CRC32"" :	a1, 42: Header [ 10
+    //
+    ] : zchar // trailing space 
+,
+    }// " ++ [128512]%N ++ runes_of_ascii " emoji
+, @tag( 42 )repeat i64_{
+    // c
+    char[00 ] _x `{ , }` ,
 }
-
-options {
-    //x
-    trueish = int16
-    Packet = char
-    MetaDataX = char[255];
-}
-
-root packet a1 {
-}
-
-root packet MetaDataX {
-    @lengthOf(_x)
-    repeat Logon {
-        // " ++ [128512]%N ++ runes_of_ascii " emoji
-        o a1,
-        uint64 u128,
-    },
-    zchar[007] chars `line1
-    line2`,
-    repeat Header u128 `doc`,// " ++ [128512]%N ++ runes_of_ascii " emoji
-    @calculatedFrom(""1"")
-    int trueish,
-    char[0123456789] uint8x,
-    i8 int @lengthOf(msg_type) `line1
-    line2`,
-    //x
-    @rightPad()
-    repeat f64 Z9_,
-    metadata {
-        falsey @calculatedFrom(""abc""),
-    },
-    options1 @calculatedFrom(""\n""),
-    @calculatedFrom(""\n"")
-    match metadata as Header {
-        ["""", ""1""] : Foo,
-        [""\n"", 10, ""{,}""] : Logon,
-        [""""] : len,
-        ""\n"" : msg_type,
-        [00] : trueish,
-        10 : u8x,
-    },
-}// " ++ [27880; 37322]%N ++ runes_of_ascii "
-
-root packet BodyLength {
-    char[42] body @calculatedFrom(""{,}"") `tab	here`,
-    i32 stringy @calculatedFrom(""" ++ [28040; 24687]%N ++ runes_of_ascii """),
-    @tag(0123456789)
-    @rightPad()
-    @tag(00)
-    i16 a1 @lengthOf(pack),
-    @tag(10)
-    @leftPad('\x00')
-    // `tick` ""quote"" 'q'
-    @calculatedFrom(""a\""b"")
-    repeat char[] stringy `
-    `,
-    chars `say ""hi""`,
-    @lengthOf(a1)
-    @leftPad('0')
-    match Z9_ as Header {
-        00 : As,
-    },
-    o @calculatedFrom(""" ++ [128512]%N ++ runes_of_ascii """),
-    @leftPad()
-    As @calculatedFrom(""// no comment""),
-    match x_y_z as BodyLength {
-        ""x y"" : BodyLength,
-        """ ++ [28040; 24687]%N ++ runes_of_ascii """ : packetx,
-        0 : Header,
-        ""x y"" : matchKey,
-    },
-}// trailing space ")).
+,repeat //x
+char[] uint8x
+`crlf
+line` ,@leftPad
+(	'\x00'
+    ) @tag( 7 )
+    int32
+// a // b
+// @lengthOf(
+repeatCount
+    @calculatedFrom(
+""x y"" )
+`// not a comment` , u32 zchar
+    `
+` , repeat stringy { i8i8 lengthOf
+, } , // packet A { u8 x, }
+@calculatedFrom(  ""abc"" ) @lengthOf( tag ) @lengthOf( /// triple
+rootA )  char[3	] // c
+rootA`" ++ [233]%N ++ runes_of_ascii "` ,// c
+}MetaData crc
+{
+float32
+asx `" ++ [233]%N ++ runes_of_ascii "` ,	string i64_// " ++ [128512]%N ++ runes_of_ascii " emoji
+,
+    }
+root packet Packet
+    //
+    {charz @lengthOf( zchar) ,	f32
+    f32a `{ , }` // a // b
+, i64 matchKey @lengthOf( leftPad )
+    , string trueish, @leftPad (  '0')
+    // trailing space 
+    tag@lengthOf( // a // b
+string_ ) `doc` , match stringy
+// @lengthOf(
+// @lengthOf(
+as calculatedFrom
+    { [
+0123456789 ]: repeatCount
+//	t
+//
+,} ,// trailing space 
+char[
+3]
+Header ,
+int64 MetaDataX
+,	@leftPad( ) len { packetx @lengthOf(chars ) `` ,
+    }, @rightPad ( '0'
+    )  x_y_z
+,
+} options{ rootA
+// packet A { u8 x, }
+//x
+= '0'
+; Foo =char
+    ;A
+    = zchar[ 0123456789 ]
+// " ++ [27880; 37322]%N ++ runes_of_ascii "
+//x
+;packetx = """ ++ [233]%N ++ runes_of_ascii "t" ++ [233]%N ++ runes_of_ascii """
+float = true } //x")).
 Eval vm_compute in ("<<<M385>>>" ++ check (runes_of_ascii "options {
     StringPrefixLenType = u16;
     ArrayPrefixLenType = u16;
@@ -157,92 +171,110 @@ packet Detail {
     string RuleName `" ++ [35268; 21017; 21517; 31216]%N ++ runes_of_ascii "`,
     u16 Code `" ++ [21407; 22240; 20195; 30721]%N ++ runes_of_ascii "`,
 }")).
-Eval vm_compute in ("<<<M1461>>>" ++ check (runes_of_ascii "packet falsey {
-    i64_,
-    charz {
-        match Packet as Pad {
-            ""\n"" : Packet,
-            ""// no comment"" : f32a,
-            [
-                3, 4294967296, 10,
-                7, 10
-            ] : u,
-            // trailing space 
-            ""`tick`"" : u8x,
-            [7, ""it's""] : Packet,
-            0 : len,
-        },
-    },/// triple
-    @lengthOf(f32a)
-    char[3] options1 @lengthOf(Pad),
-    zchar[0123456789] T ``,
-}
-
-packet Pad {
+Eval vm_compute in ("<<<M128>>>" ++ check (runes_of_ascii "root
+packet // " ++ [27880; 37322]%N ++ runes_of_ascii "
+crc
+    {	@lengthOf(	As
+)@calculatedFrom(""\" ++ [233]%N ++ runes_of_ascii """
+    ) zchar[ 4294967296 ]MetaDataX `doc` ,/// triple
+rootA @calculatedFrom( ""it's"" )	,@tag( 65535
+    ) @tag( // c
+7 )@tag( 00
+//
+// c
+) len @lengthOf( A ) `two words` ,
+// trailing space 
+// " ++ [128512]%N ++ runes_of_ascii " emoji
+string	rootA@lengthOf( pack
+// trailing space 
+//	t
+) ,
+// " ++ [128512]%N ++ runes_of_ascii " emoji
+// trailing space 
+repeat zchar ,
+@calculatedFrom( ""abc"" )@leftPad ('\x00' ) @rightPad
+( )match x_y_z
+    as Z9_{
+""it's""
+    :
+Logon//x
+, ""x y"" : Packet,""abc""
+: trueish 4294967296 // @lengthOf(
+:
+    repeatCount """ ++ [128512]%N ++ runes_of_ascii """:  x_y_z
+} , char[ 10 // @lengthOf(
+]
+    stringy	`it's`
+, @leftPad (
+'\x00' )
+rootA @lengthOf(  i64_  )
+    , } MetaData falsey {
+Packet repeatCount `tab	here` ,
+}MetaData string_ {
+    float64 roots `line1
+line2` , char
+As //
+`
+` , zchar[ 65535 ]falsey`a\` ,A
+    T , _x metadata, } packet
+_x // packet A { u8 x, }
+{zchar[255 ] string_@lengthOf(
+//	t
+// @lengthOf(
+u128 ) `{ , }`	,
+}root packet Packet
+    {repeat // " ++ [128512]%N ++ runes_of_ascii " emoji
+lengthOf , }")).
+Eval vm_compute in ("<<<M107>>>" ++ check (runes_of_ascii "packet falsey { i64_ ,	charz  {
+match Packet  as Pad { ""\n"" :Packet
+    , ""// no comment"" // " ++ [128512]%N ++ runes_of_ascii " emoji
+:
+f32a// `tick` ""quote"" 'q'
+, [
+    /// triple
+    3  ,4294967296,
+    10 ,//
+7 , 10	]
+: u
+, // trailing space 
+""`tick`"": u8x
+,
+[ 7 , ""it's"" ]:Packet, 0 : len
+    //
+    , }
+    , }, /// triple
+@lengthOf(	f32a) char[ 3 ]options1
+    @lengthOf(
+Pad)
+, zchar[ 0123456789 ]// trailing space 
+T ``
+,
+} packet
+Pad
+{
     // c
-    o roots `{ , }`,
-}
-
-packet f32a {
-    _x @calculatedFrom(""x y""),
-    @tag(65535)
-    //	t
-    char pack @lengthOf(zchar),
-    repeat int64 falsey,
-    repeat len {
-        match A as rootA {
-            [42, ""\n""] : Z9_,
-        },
-        repeat i16 A,
-        repeat zchar[65535] tag `
-                `,
-        f64 float @lengthOf(f32a) ``,
-        // `tick` ""quote"" 'q'
-        // packet A { u8 x, }
-    },
-    x u8x,
-    @tag(42)
-    repeat As Packet,
-    @lengthOf(Pad)
-    repeat f64 rootA,// @lengthOf(
-}")).
-Eval vm_compute in ("<<<M1887>>>" ++ check (runes_of_ascii "packet crc {
-    @tag(0)
-    @calculatedFrom(""{,}"")
-    @rightPad(' ')
-    repeat uint8 lengthOf,
-    char[42] float,
-    repeat a1 {
-        match x_y_z as charz {
-            [
-                00, 4294967296,
-                ""it's"", """ ++ [28040; 24687]%N ++ runes_of_ascii """
-            ] : zchar,
-            [
-                ""packet"", ""x y"", ""it's"",
-                ""abc"", ""it's""
-            ] : string_,
-            0 : Z9_,
-        },// `tick` ""quote"" 'q'
-    },
-    match u8x as pack {
-        [0123456789, ""x y""] : trueish,
-    },
-    @calculatedFrom(""a\""b"")
-    repeat string_ `a\`,
-    packetx @calculatedFrom(""`tick`""),
-    int64 chars `say ""hi""`,
-    @calculatedFrom(""a	b"")
-    @leftPad('\x00')
-    @lengthOf(repeatCount)
-    u64 falsey @calculatedFrom(""\" ++ [233]%N ++ runes_of_ascii """),
-    repeat Header {
-        repeat metadata,
-        char[] chars `" ++ [28040; 24687; 31867; 22411]%N ++ runes_of_ascii "`,
-        zchar[10] x_y_z `a\`,
-    },
-    // trailing space 
-    // c
+    o roots `{ , }` // " ++ [128512]%N ++ runes_of_ascii " emoji
+, }packet f32a {
+_x//
+@calculatedFrom(	""x y"") //x
+,@tag( 65535
+) //	t
+char pack @lengthOf( zchar  ) ,repeat //
+int64 falsey  ,repeat len {match A
+    as rootA {[ 42,  ""\n"" ]:
+Z9_ , }
+,repeat i16
+A , repeat zchar[ 65535 ] tag `
+` ,
+f64 float
+    @lengthOf( f32a ) ``  ,
+// `tick` ""quote"" 'q'
+// packet A { u8 x, }
+} , x
+    u8x
+, @tag(  42	) repeat As Packet	, @lengthOf( Pad
+    )repeat
+    f64 rootA ,// @lengthOf(
 }")).
 Eval vm_compute in ("<<<M209>>>" ++ check (runes_of_ascii "packet calculatedFrom { // a // b
 string charz
@@ -301,803 +333,711 @@ options { float
 // `tick` ""quote"" 'q'
 zchar[ 7] ; f32a =""\n""}
 ")).
-Eval vm_compute in ("<<<M1799>>>" ++ check (runes_of_ascii "root packet asx {
-    // `tick` ""quote"" 'q'
-    f32a,
+Eval vm_compute in ("<<<M1901>>>" ++ check (runes_of_ascii "packet charz {
+    //	t
+    repeat i64_,
+    trueish {
+        repeat _x,
+        repeatCount,
+        repeat u16 matchKey `
+                `,
+        // " ++ [128512]%N ++ runes_of_ascii " emoji
+        // a // b
+        matchKey @calculatedFrom(""a\""b"") `it's`,
+    },
+    @tag(007)
+    @calculatedFrom(""a\\"")
+    @tag(3)
+    f32 f32a @lengthOf(asx) `crlf
+        line`,
+    repeat i8 string_,
+    @lengthOf(Logon)
+    @lengthOf(x_y_z)
+    @lengthOf(zchar)
+    repeat char[65535] Foo `" ++ [233]%N ++ runes_of_ascii "`,
     @calculatedFrom(""abc"")
-    zchar[65535] metadata `
-    `,
-    @calculatedFrom(""CRC32"")
-    Header `doc`,
-    match f32a as msg_type {
-        [""\n""] : charz,
-        // @lengthOf(
-        0123456789 : pack,
-        //x
+    trueish @lengthOf(A),
+    char[0] float,
+    Packet @calculatedFrom(""a	b""),
+}
+
+MetaData Pad {
+    char[00] leftPad,
+    u8 rootA `
+        `,
+    //
+    // " ++ [128512]%N ++ runes_of_ascii " emoji
+    int32 a1 `say ""hi""`,
+    Z9_ float,//x
+    i32 Pad,
+}")).
+Eval vm_compute in ("<<<M154>>>" ++ check (runes_of_ascii "packet BodyLength
+    // a // b
+    {@rightPad (
+'\x00' )
+u8x/// triple
+,  @tag(  007
+) @calculatedFrom( ""packet""	) repeat  uint8x x_y_z, }
+    MetaData A {
+    // packet A { u8 x, }
+    Z9_ // a // b
+f32a ,
+    zchar[ 255// a // b
+]
+    msg_type`say ""hi""` ,char[ 1	]Logon  `tab	here` ,//
+}
+packet uint8x {  @calculatedFrom(
+""" ++ [28040; 24687]%N ++ runes_of_ascii """ )@tag(// `tick` ""quote"" 'q'
+65535)	u32 int
+@lengthOf( u8x )
+`say ""hi""`
+,	@leftPad ( ' ') stringy //
+{
+    string_ A ,
+    char[ 4294967296
+] i8i8 `" ++ [233]%N ++ runes_of_ascii "`	, char[]  Logon
+,
+string
+x_y_z@lengthOf(	Packet ),
+} , zchar[	4294967296 ]
+int	`{ , }` , }
+// trailing space 
+// " ++ [27880; 37322]%N ++ runes_of_ascii "
+packet u8x
+    { }
+// a // b
+")).
+Eval vm_compute in ("<<<M1751>>>" ++ check (runes_of_ascii "  options
+
+    { LittleEndian= false
+;  ArrayPrefixLenType =  u8;
+	FixedStringPadFromLeft
+
+    = 
+true 
+;
+	FixedStringPadChar=	'0'
+    ; }
+	packet
+Heartbeat	{
+
+    string lastPx
+, uint8
+Qty
+	,
+    i64	Acct	,	char[
+4 ]
+Ref
+    , }packet
+Fill 
+{uint8 Ref ,
+
+Heartbeat
+
+,	f32  OrderId
+,
+	repeat 
+f32 
+x ,} 
+root
+	packet
+Order
+	{	zchar[
+2 
+]	OrderId
+
+,
+	zchar[2
+
+    ]
+
+Acct
+,zchar[	1	]
+
+Note  , zchar[	9
+]
+Qty
+,  string
+
+price ,string
+	tag7 ,
+
+u32
+
+    x , 
+match x as	Body	{	123
+:
+	Fill  , 112
+	:
+Heartbeat
+,}
+, 
+u32 
+seqNo
+	@calculatedFrom( ""CRC32""
+	)
+    , }
+")).
+Eval vm_compute in ("<<<M1324>>>" ++ check (runes_of_ascii "// top
+root
+    // c0
+packet Frame
+    // c2
+{ u8
+    // c4
+K
+    // c5
+,
+    // c6
+Logon
+    // c7
+first
+    // c8
+, // c9
+match // c10
+K // c11a
+  // c11b
+as
+    // c12
+Body // c13a
+  // c13b
+{
+    // c14
+1 : Logon
+    // c17
+, // c18a
+  // c18b
+2
+    // c19
+: // c20a
+  // c20b
+Logout ,
+    // c22
+}
+    // c23
+, // c24a
+  // c24b
+} // c25a
+  // c25b
+packet Logon { string // c29a
+  // c29b
+user // c30
+, // c31
+} // c32
+packet
+    // c33
+Logout
+    // c34
+{ u16 reason , // c38a
+  // c38b
+} // c39a
+  // c39b
+")).
+Eval vm_compute in ("<<<M1578>>>" ++ check (runes_of_ascii "packet Logon {
+    repeatCount {
+        BodyLength `crlf
+        line`,
+    },
+    zchar a1 `u8 x,`,
+    match Foo as Foo {
+        ""\n"" : i8i8,
+        [""abc"", ""CRC32""] : crc,
         [
-            ""packet"", """", ""`tick`"", ""CRC32"", ""\n"",
-            ""it's"", ""it's"", 4294967296
-        ] : charz,
-        42 : leftPad,
+            3, ""x y"", 42, ""`tick`"", 1,
+            ""a\""b"", ""CRC32"", 255
+        ] : repeatCount,
         [
-            255, 7, ""packet"", ""{,}"", ""\" ++ [233]%N ++ runes_of_ascii """,
-            ""1"", ""1""
-        ] : msg_type,
-        [""" ++ [128512]%N ++ runes_of_ascii """] : i64_,
+            1, 007, ""\n"", 007, 7,
+            ""// no comment"", 255
+        ] : uint8x,
+        00 : f32a,
+    },
+    // a // b
+    uint16 Pad @lengthOf(uint8x) `doc`,
+}")).
+Eval vm_compute in ("<<<M1193>>>" ++ check (runes_of_ascii "// top
+MetaData
+    // c0
+uint8x // c1
+{ char[]
+    // c3
+f32a // c4a
+  // c4b
+`// not a comment`
+    // c5
+, // c6a
+  // c6b
+float32 // c7
+roots
+    // c8
+, // c9
+char[ // c10a
+  // c10b
+7 // c11
+] // c12
+u8x // c13
+, // c14a
+  // c14b
+zchar[
+    // c15
+10
+    // c16
+] // c17
+f32a // c18
+, // c19a
+  // c19b
+u64
+    // c20
+pack // c21a
+  // c21b
+, u16
+    // c23
+pack // c24a
+  // c24b
+,
+    // c25
+}
+    // c26
+")).
+Eval vm_compute in ("<<<M1471>>>" ++ check (runes_of_ascii "packet crc {
+    match trueish as len {
+        42 : uint8x,
+        // " ++ [128512]%N ++ runes_of_ascii " emoji
+        ""1"" : asx,
+        3 : body,
+        [""1"", 0123456789] : u,
+        ""packet"" : o,
     },
 }
 
-packet body {
+MetaData tag {
+    string o `line1
+        line2`,
+    char[] Header `{ , }`,
+    uint8x Z9_,
 }
 
-root packet i64_ {
-    uint16 Header @calculatedFrom(""" ++ [233]%N ++ runes_of_ascii "t" ++ [233]%N ++ runes_of_ascii """) ``,
-    float64 string_ @calculatedFrom(""`tick`""),
-    repeat zchar[1] packetx `it's`,
-}//	t")).
-Eval vm_compute in ("<<<M1693>>>" ++ check (runes_of_ascii "
-
-  root// c
-  packet 
-asx{ @rightPad(
-' ' )  @lengthOf( int )  @tag(
-
-0
-	) 
-u64
-
-uint8x 
-@calculatedFrom(
-
-    ""packet"" ),
-uint32
-
-i64_ ,
-// c
-	repeat options1 o, 
-match	f32a as/// triple
-	falsey // " ++ [27880; 37322]%N ++ runes_of_ascii "
-{ 
-42 : 
-stringy 10
-	:As  ,	""""
-:  Packet
-	,
-	}
-    , @calculatedFrom( ""it's"" ) 	 // " ++ [128512]%N ++ runes_of_ascii " emoji
-    f64
-a1
-	,@lengthOf( 
-tag
-	)  match 
-roots  as  MetaDataX {	""" ++ [128512]%N ++ runes_of_ascii """
-
-:
-    f32a
-    ,
-
-    ""\n""	:
-
-    As
-	[
-	255 ]
-
-:
-A
-
-    ,}
-	,a1
-
-@calculatedFrom(
-	""abc""
-)  ``,@rightPad	(	)@rightPad (
-
-    '\x00' ) @calculatedFrom(
-""CRC32""
-	)body 
-As  ,
-} root
-
-packet
-packetx {
-	    //x
-//
-repeat
-lengthOf 
-Logon  `" ++ [28040; 24687; 31867; 22411]%N ++ runes_of_ascii "`
-	,	//	t
-      } ")).
-Eval vm_compute in ("<<<M1114>>>" ++ check (runes_of_ascii "// top
-packet
-    // c0
-float
-    // c1
-{
-    // c2
-@rightPad
-    // c3
-(
-    // c4
-)
-    // c5
-rootA
-    // c6
-@lengthOf(
-    // c7
-trueish
-    // c8
-)
-    // c9
-,
-    // c10
-stringy
-    // c11
-@lengthOf(
-    // c12
-matchKey
-    // c13
-)
-    // c14
-,
-    // c15
-char[
-    // c16
-4294967296
-    // c17
-]
-    // c18
-pack
-    // c19
-@lengthOf(
-    // c20
-uint8x
-    // c21
-)
-    // c22
-,
-    // c23
-}
-    // c24
-root
-    // c25
-packet
-    // c26
-trueish
-    // c27
-{
-    // c28
-repeat
-    // c29
-uint64
-    // c30
-u128
-    // c31
-`line1
-line2`
-    // c32
-,
-    // c33
-}
-    // c34
-")).
-Eval vm_compute in ("<<<M1674>>>" ++ check (runes_of_ascii "
-MetaData
-
-falsey {	} 
-root
-	packet  // `tick` ""quote"" 'q'
-o 
-{ @tag( 3 // " ++ [128512]%N ++ runes_of_ascii " emoji
-	)@calculatedFrom(
-
-""""
-
-)
-    @lengthOf( pack
-    )char[65535 ] 
-falsey @lengthOf( falsey )  ,
-
+MetaData tag {
+    i8 len,
 }
 
-    root
-
-packet  roots
-    {  @lengthOf(  chars )
-match
-
-    Logon
-as chars	{
-""`tick`"": 
-charz  
-  // packet A { u8 x, }
-""a\\"" :
-
-Z9_
-
-007
-	:
-trueish
-""CRC32""
-:
-	msg_type
-	,  [ 3 , 3 // `tick` ""quote"" 'q'
-      ,	00 ,	4294967296 ,
-
-0 ,	7
-, //
-  ""x y""
-
-,""\" ++ [233]%N ++ runes_of_ascii """ 
-    //	t
-	] 
-:  metadata
-
-    ,
-""a	b""
-//x
-  // " ++ [27880; 37322]%N ++ runes_of_ascii "
-: crc}
-	, }")).
-Eval vm_compute in ("<<<M1235>>>" ++ check (runes_of_ascii "// top
-options
-    // c0
-{
-    // c1
-f32a
-    // c2
-=
-    // c3
-0
-    // c4
-}
-    // c5
-packet
-    // c6
-trueish
-    // c7
-{
-    // c8
-}
-    // c9
-MetaData
-    // c10
-_x
-    // c11
-{
-    // c12
-char[
-    // c13
-0123456789
-    // c14
-]
-    // c15
-zchar
-    // c16
-,
-    // c17
-string
-    // c18
-crc
-    // c19
-,
-    // c20
-char[
-    // c21
-1
-    // c22
-]
-    // c23
-options1
-    // c24
-,
-    // c25
-uint8
-    // c26
-repeatCount
-    // c27
-,
-    // c28
-}
-    // c29
-")).
-Eval vm_compute in ("<<<M68>>>" ++ check (runes_of_ascii "
-packet
-    Header {  match roots  as packetx
-// " ++ [27880; 37322]%N ++ runes_of_ascii "
-//	t
-{
+options {
     // `tick` ""quote"" 'q'
-    [
-""" ++ [28040; 24687]%N ++ runes_of_ascii """ ,
-    0123456789 ]:packetx,
-//
-// c
-4294967296
-    : Logon ,	[ ""\n""
-    ,""x y"" , // " ++ [128512]%N ++ runes_of_ascii " emoji
-""packet"" , ""packet"" ] : i8i8 , 42 // `tick` ""quote"" 'q'
-:Foo
-    ,
-}, //	t
-@calculatedFrom( ""x y""	) f64 Logon ,} options
-    {
-    // " ++ [128512]%N ++ runes_of_ascii " emoji
-    chars=
-' '
-    ; repeatCount =
-""" ++ [233]%N ++ runes_of_ascii "t" ++ [233]%N ++ runes_of_ascii """ x	= ""\n"" ; calculatedFrom = ""`tick`"" //x
-; }
-")).
-Eval vm_compute in ("<<<M1262>>>" ++ check (runes_of_ascii "// top
-packet // c0
-B // c1
+    /// triple
+    x = 10;
+}")).
+Eval vm_compute in ("<<<M1688>>>" ++ check (runes_of_ascii "
+packet
+A
 {
-    // c2
+u8
+    a
+
+    ,} packet
+    B { 
+u16
+
+    b
+	,	} 
+packet	C 
+{u32 c
+    ,
+    } root 
+packet	M	{
+u16 
+Kc	,  u16
+	Kb , u16 Ka
+,	match
+    Kc
+
+    as
+    X
+{
+    9
+
+    :  A , 10: B
+,  } ,  match
+Kb 
+as
+
+    Y
+
+    {	2
+:
+	C
+
+,1
+
+    :
+A,}	, match
+
+Ka
+as
+	Z { 
+1 :B
+,}
+
+    ,	A  ,  B	,
+C
+    ,
+} ")).
+Eval vm_compute in ("<<<M1923>>>" ++ check (runes_of_ascii "packet zchar {
+    @lengthOf(a1)
+    i64_ @lengthOf(Header) `" ++ [28040; 24687; 31867; 22411]%N ++ runes_of_ascii "`,
+    charz `" ++ [233]%N ++ runes_of_ascii "`,
+    char[007] i64_,
+    tag {
+        u16 matchKey,
+        match Pad as lengthOf {
+            [""CRC32"", ""abc""] : Packet,
+        },
+    },
+}
+
+MetaData body {
+    char[10] u128 `doc`,
+    /// triple
+    //x
+}//x")).
+Eval vm_compute in ("<<<M1250>>>" ++ check (runes_of_ascii "// top
+packet
+    // c0
+Inner
+    // c1
+{ // c2a
+  // c2b
 u8
     // c3
-a , } root packet // c8a
-  // c8b
+a // c4a
+  // c4b
+, }
+    // c6
+root // c7
+packet // c8
 P // c9a
   // c9b
 {
     // c10
-u8 // c11
-K , // c13
-u64 // c14a
-  // c14b
-L @lengthOf( // c16a
-  // c16b
-Body
-    // c17
-) , match // c20a
-  // c20b
-K as // c22a
-  // c22b
-Body // c23
-{ // c24a
-  // c24b
-1 : // c26a
-  // c26b
-B // c27a
-  // c27b
-,
-    // c28
-} // c29
-, // c30
-}
-    // c31
-")).
-Eval vm_compute in ("<<<M178>>>" ++ check (runes_of_ascii "packet // c
-As
-{@tag( 42
-    )
-    repeat Logon	uint8x
-// " ++ [128512]%N ++ runes_of_ascii " emoji
-//
-``, repeat int32
-    x_y_z ,char[7 // trailing space 
-]	pack , repeat string crc
-/// triple
-// c
-`// not a comment`
-, @calculatedFrom(
-    ""`tick`""
-    ) @tag( 1 )match
-    // @lengthOf(
-    chars as
-MetaDataX { 4294967296 : // @lengthOf(
-T ,
-} /// triple
-,
-}
-")).
-Eval vm_compute in ("<<<M1277>>>" ++ check (runes_of_ascii "// top
-options
-    // c0
-{
-    // c1
-LittleEndian // c2
-=
-    // c3
-true
-    // c4
-;
-    // c5
-}
-    // c6
-root // c7a
-  // c7b
-packet P // c9a
-  // c9b
-{ u16
-    // c11
-a // c12
-, // c13
-u32 // c14a
-  // c14b
-Sum
-    // c15
-@calculatedFrom( ""CRC32"" ) // c18a
-  // c18b
-,
-    // c19
-} // c20a
-  // c20b
-")).
-Eval vm_compute in ("<<<M1888>>>" ++ check (runes_of_ascii "
-
-  options
-
-{ 
-LittleEndian	// c2a
-    // c2b
-= // c3
-  true 
-  // c4
-
-;
-
-    } root 
-// c7
-		packet	P  // c9a
-  // c9b
-    {
-
-repeat
-	char	// c12a
-// c12b
-
-cs 	 // c13a
-	// c13b
-	, // c14a
-
-  // c14b
-  u8
-    // c15
-
-x
-    // c16
-, 	 // c17
-	  } 
-
-    // c18
-")).
-Eval vm_compute in ("<<<M1886>>>" ++ check (runes_of_ascii "// top
-options {
-    // c1
-    f32a = 0// c4
-}// c5
-
-packet trueish {
-    // c8
-}// c9
-
-MetaData _x {
+Inner // c11a
+  // c11b
+ref_obj
     // c12
-    char[0123456789] zchar,// c17
-    string crc,// c20
-    char[1] options1,// c25
-    uint8 repeatCount,// c28
-}// c29")).
-Eval vm_compute in ("<<<M1326>>>" ++ check (runes_of_ascii "packet Logon {
-    string user,
-}
-root packet Frame {
-    u8 K,
-    match K as Body {
-        1 : Logon,
-        2 : Logout,
-    },
-    Tail,
-}
-packet Logout {
-    u16 reason,
-}
-packet Tail {
-    u32 crc,
-}
+, // c13a
+  // c13b
+u8 x ,
+    // c16
+} // c17a
+  // c17b
 ")).
-Eval vm_compute in ("<<<M9>>>" ++ check (runes_of_ascii "
-options {body = """ ++ [28040; 24687]%N ++ runes_of_ascii """ }	packet matchKey
-{string_
-// packet A { u8 x, }
-// a // b
-@lengthOf( f32a) ,	int32 int @lengthOf(u128 )	, tag x_y_z ,}packet BodyLength /// triple
-{ }")).
-Eval vm_compute in ("<<<M431>>>" ++ check (runes_of_ascii "packet uint8x
-{ match pack
-    as msg_type	{
-    0123456789 0123456789 :	float
-}
-,
-} packet //	t
-a1
-    { } options {packetx
-    = '\x00'	; u128= ""a	b""  ; }
-")).
-Eval vm_compute in ("<<<M411>>>" ++ check (runes_of_ascii "packet uint8x
-{ match pack pack
-    as msg_type	{
-    0123456789 :	float
-}
-,
-} packet //	t
-a1
-    { } options {packetx
-    = '\x00'	; u128= ""a	b""  ; }
-")).
-Eval vm_compute in ("<<<M451>>>" ++ check (runes_of_ascii "packet uint8x
-{ match pack
-    as msg_type	{
-    0123456789 :	float
-}
-, ,
-} packet //	t
-a1
-    { } options {packetx
-    = '\x00'	; u128= ""a	b""  ; }
-")).
-Eval vm_compute in ("<<<M275>>>" ++ check (runes_of_ascii "MetaData
-stringy { zchar[10 ] crc,  }
-    packet u128
-{ repeat uint16  BodyLength `// not a comment`, @lengthOf( falsey ) _x ,
-char[ 42 ]  i8i8	, }
+Eval vm_compute in ("<<<M1928>>>" ++ check (runes_of_ascii "packet
+roots {
 
-")).
-Eval vm_compute in ("<<<M532>>>" ++ check (runes_of_ascii "packet uint8x
-{ match pack
-    as msg_type	{
-    0123456789 :	float
-}
-,
-} packet //	t
-a1
-    { } options {packetx
-    = '\x00'	; u128= ""a	b""  ; )
-")).
-Eval vm_compute in ("<<<M1818>>>" ++ check (runes_of_ascii "
+    @calculatedFrom(
 
-  MetaData
-repeatCount 	 // c
-
-{char[ 
-42	// " ++ [27880; 37322]%N ++ runes_of_ascii "
-
-	] 
-	    // " ++ [128512]%N ++ runes_of_ascii " emoji
-	MetaDataX , 
-    // @lengthOf(
-    	zchar[ 
-// " ++ [27880; 37322]%N ++ runes_of_ascii "
-//x
-  0 ]
-    asx ,}
-
-")).
-Eval vm_compute in ("<<<M391>>>" ++ check (runes_of_ascii " uint8x
-{ match pack
-    as msg_type	{
-    0123456789 :	float
-}
-,
-} packet //	t
-a1
-    { } options {packetx
-    = '\x00'	; u128= ""a	b""  ; }
-")).
-Eval vm_compute in ("<<<M1288>>>" ++ check (runes_of_ascii "// top
-root
-    // c0
-packet P
-    // c2
-{ // c3a
-  // c3b
-repeat // c4
-string // c5
-ss , // c7
-repeat u16 ns ,
-    // c11
-} // c12a
-  // c12b
-")).
-Eval vm_compute in ("<<<M329>>>" ++ check (runes_of_ascii "  packet calculatedFrom
-{ uint8x {body `line1
-line2`
-, string crc
-@lengthOf(uint8x// " ++ [128512]%N ++ runes_of_ascii " emoji
-) , char[]As@lengthOf(	Pad )
-    , } , }
-")).
-Eval vm_compute in ("<<<M1753>>>" ++ check (runes_of_ascii "packet	A
-
-    {match 
-k  as n
-{  [ 1
-
+    ""a\\"" 
+)
+@lengthOf( packetx
+) match repeatCount
+	as  body  {	007
+:lengthOf 
+, 00:  // `tick` ""quote"" 'q'
+zchar
     ,
-	""bb""
-	,	007 ,""d"" 
-,	5
-,""f""
+} ,
+	char[]
+    chars `say ""hi""` ,
+} MetaData
+packetx
+{  }
 
-,
-7
-,
-    ""h""
-,
-9
-
-, ""j""
-
-    ] :  B
-	2 :
-
-C
-} ,}
 ")).
-Eval vm_compute in ("<<<M343>>>" ++ check (runes_of_ascii "packet Header { repeat char[  0123456789 ]BodyLength`" ++ [28040; 24687; 31867; 22411]%N ++ runes_of_ascii "`/// triple
-, zchar[ 3
-    ] chars
-    ,// trailing space 
-A, } //")).
-Eval vm_compute in ("<<<M1149>>>" ++ check (runes_of_ascii "MetaData leftPad { chars // c
-MetaDataX , } packet repeatCount { char[ 255 ] uint8x `" ++ [233]%N ++ runes_of_ascii "` , } MetaData pack { As Foo , }")).
-Eval vm_compute in ("<<<M1181>>>" ++ check (runes_of_ascii "MetaData leftPad { chars MetaDataX , } packet repeatCount { char[ 255 ] uint8x `" ++ [233]%N ++ runes_of_ascii "` , } MetaData pack { // c
-As Foo , }")).
-Eval vm_compute in ("<<<M346>>>" ++ check (runes_of_ascii "MetaData chars {
-x_y_z
-/// triple
-/// triple
-x
-    `line1
-line2` ,_x A`// not a comment`,	} // `tick` ""quote"" 'q'")).
-Eval vm_compute in ("<<<M881>>>" ++ check (runes_of_ascii "packet A {
-  match k as n {
-    [""a"", ""bb"", ""c c"", ""d"", ""e"", ""f"", ""g"", ""h"", ""i"", ""j""] : B
-    2 : C
-  },
-}")).
-Eval vm_compute in ("<<<M1521>>>" ++ check (runes_of_ascii "packet
-
-    A
-	{ match k
-as n
-
-{
-[
-""a"" 
-,22 ,
-
-""c c""
-,
-4  , ""e"" 
-,
-    66]:	B 2 
-:C
-    }
-    ,}
-")).
-Eval vm_compute in ("<<<M875>>>" ++ check (runes_of_ascii "packet A {
-  match k as n {
-    [""a"", ""bb"", 007, ""d"", ""e"", 66, ""g"", ""h"", 9] : B,
-    2 : C
-  },
-}")).
-Eval vm_compute in ("<<<M565>>>" ++ check (runes_of_ascii "
-packet
-    asx true match u128 as lengthOf
-{
-//	t
-// `tick` ""quote"" 'q'
-255 : x ,
-    } ,	}")).
-Eval vm_compute in ("<<<M682>>>" ++ check (runes_of_ascii "// @lengthOf(
-packet i8i8 { u128 o , }
-options { MetaDataX = true;
-    BodyLength =""packet""")).
-Eval vm_compute in ("<<<M614>>>" ++ check (runes_of_ascii "
-packet
-    asx {match u128 as lengthOf
-{
-//	t
-// `tick` ""quote"" 'q'
-255 : x ,
-    , }	}")).
-Eval vm_compute in ("<<<M557>>>" ++ check (runes_of_ascii "
-packet
-     {match u128 as lengthOf
-{
-//	t
-// `tick` ""quote"" 'q'
-255 : x ,
-    } ,	}")).
-Eval vm_compute in ("<<<M647>>>" ++ check (runes_of_ascii "// @lengthOf(
-packet i8i8 { u128 o , }
-options { MetaDataX = true;
-    BodyLength =")).
-Eval vm_compute in ("<<<M1252>>>" ++ check (runes_of_ascii "packet Inner {
-    u8 a,
-}
-root packet P {
-    repeat Inner items,
-    u8 x,
-}
-")).
-Eval vm_compute in ("<<<M1484>>>" ++ check (runes_of_ascii "packet roots {
+Eval vm_compute in ("<<<M1501>>>" ++ check (runes_of_ascii "packet roots {
+    @calculatedFrom(""a\\"")
+    @lengthOf(packetx)
+    match repeatCount as body {
+        007 : lengthOf,
+        00 : zchar,
+    },
+    char[] chars `say ""hi""`,
 }
 
-MetaData metadata {
-    asx matchKey,
-    uint64 rootA,
+MetaData packetx {
 }")).
-Eval vm_compute in ("<<<M454>>>" ++ check (runes_of_ascii "packet uint8x
+Eval vm_compute in ("<<<M1786>>>" ++ check (runes_of_ascii "
+
+  MetaData leftPad
+
+    {chars
+	MetaDataX
+    ,
+	} packet
+repeatCount
+{
+
+    char[  255	]
+
+    uint8x `" ++ [233]%N ++ runes_of_ascii "` , }MetaData
+
+    pack
+	{
+
+As 
+        // c
+
+  Foo , }
+")).
+Eval vm_compute in ("<<<M355>>>" ++ check (runes_of_ascii "options  { As = true
+    MetaDataX =true	}	packet A { repeat calculatedFrom `say ""hi""`
+    ,} MetaData crc { u crc ,
+    uint32 body , i16 stringy
+`u8 x,`
+, }
+")).
+Eval vm_compute in ("<<<M1608>>>" ++ check (runes_of_ascii "MetaData 
+    // c
+	  leftPad
+
+{
+    chars	MetaDataX 
+,} packet repeatCount{
+
+char[ 255 ]uint8x
+    `" ++ [233]%N ++ runes_of_ascii "`
+,	}
+
+    MetaData
+    pack
+	{
+	As
+
+Foo ,
+    }")).
+Eval vm_compute in ("<<<M540>>>" ++ check (runes_of_ascii "packet uint8x
 { match pack
     as msg_type	{
     0123456789 :	float
+}
+,
+} packet //	t
+a1
+    { } options " ++ [65279]%N ++ runes_of_ascii " {packetx
+    = '\x00'	; u128= ""a	b""  ; }
+")).
+Eval vm_compute in ("<<<M437>>>" ++ check (runes_of_ascii "packet uint8x
+{ match pack
+    as msg_type	{
+    0123456789 float	:
+}
+,
+} packet //	t
+a1
+    { } options {packetx
+    = '\x00'	; u128= ""a	b""  ; }
+")).
+Eval vm_compute in ("<<<M468>>>" ++ check (runes_of_ascii "packet uint8x
+{ match pack
+    as msg_type	{
+    0123456789 :	float
+}
+,
+} packet //	t
+,
+    { } options {packetx
+    = '\x00'	; u128= ""a	b""  ; }
+")).
+Eval vm_compute in ("<<<M533>>>" ++ check (runes_of_ascii "packet uint8x
+{ match pack
+    as msg_type	{
+    0123456789 :	float
+}
+,
+} packet //	t
+a1
+    { } options {packetx
+    = '\x00'	; u128= ""a	b""  ;")).
+Eval vm_compute in ("<<<M711>>>" ++ check (runes_of_ascii "// @lengthOf(
+packet i8i8 { u128 o , }
+options { MetaDataX = true;
+    BodyLength =""packet"" x_y_z= 007
+""crc //x
+= ""abc"" ;
+    msg_type =
+i16 }")).
+Eval vm_compute in ("<<<M709>>>" ++ check (runes_of_ascii "// @lengthOf(
+packet i8i8 { u128 o , }
+options { MetaDataX = true;
+    BodyLength =""packet"" x_y_z= 007
+crc //x
+= ""abc"" 
+    msg_type =
+i16 }")).
+Eval vm_compute in ("<<<M716>>>" ++ check (runes_of_ascii "// @lengthOf(
+packet i8i8 { u128 o , }
+ { MetaDataX = true;
+    BodyLength =""packet"" x_y_z= 007
+crc //x
+= ""abc"" ;
+    msg_type =
+i16 }")).
+Eval vm_compute in ("<<<M1761>>>" ++ check (runes_of_ascii "packet A {
+    match k as n {
+        [
+            ""a"", ""bb"", 007, ""d"", ""e"",
+            66
+        ] : B,
+        2 : C,
+    },
 }")).
-Eval vm_compute in ("<<<M924>>>" ++ check (runes_of_ascii "packet A {
-    B b `a
-b`,
-    B `a
-b`,
-    repeat B bs `a
-b`,
-}")).
-Eval vm_compute in ("<<<M204>>>" ++ check (runes_of_ascii "  options {// " ++ [128512]%N ++ runes_of_ascii " emoji
-Packet =// `tick` ""quote"" 'q'
-char[3 ]}")).
-Eval vm_compute in ("<<<M773>>>" ++ check (runes_of_ascii "packet A {
-  match k as n {
-    [1] : B,
-    2 : C
-  },
-}")).
-Eval vm_compute in ("<<<M159>>>" ++ check (runes_of_ascii "root packet x  { roots @calculatedFrom(""a\""b"" ) , }")).
-Eval vm_compute in ("<<<M1907>>>" ++ check (runes_of_ascii "  options
-{ a
+Eval vm_compute in ("<<<M1533>>>" ++ check (runes_of_ascii "options{
+
+_x =
+""`tick`"" 
+; matchKey	=
+
+    ""it's""
+
+;
+
+options1
+
     =
 
-1 // c
-	b =2 ; 	 // d
-    }
-")).
-Eval vm_compute in ("<<<M755>>>" ++ check (runes_of_ascii "string i8 ) } u8 [ uint32 ] } = uint8 '\x00'")).
-Eval vm_compute in ("<<<M1410>>>" ++ check (runes_of_ascii "  MetaData
-
-    u{ 
-        // c
+    u16	;
+	stringy=
+    true
+	    // c
 
 	}
 
 ")).
-Eval vm_compute in ("<<<M132>>>" ++ check (runes_of_ascii "options
-    { Foo = 0123456789
-; }")).
-Eval vm_compute in ("<<<M753>>>" ++ check (runes_of_ascii ":l" ++ [65533; 23]%N ++ runes_of_ascii "9" ++ [65533; 1549]%N ++ runes_of_ascii "F" ++ [65533; 65533; 65533; 65533]%N ++ runes_of_ascii "j)" ++ [65533; 65533; 27; 25; 65533; 65533; 261; 14; 65533]%N ++ runes_of_ascii "V" ++ [65533; 65533]%N ++ runes_of_ascii "4b-" ++ [65533; 65533]%N)).
-Eval vm_compute in ("<<<M1689>>>" ++ check (runes_of_ascii "
+Eval vm_compute in ("<<<M1155>>>" ++ check (runes_of_ascii "MetaData leftPad { chars MetaDataX , } // c
+packet repeatCount { char[ 255 ] uint8x `" ++ [233]%N ++ runes_of_ascii "` , } MetaData pack { As Foo , }")).
+Eval vm_compute in ("<<<M1187>>>" ++ check (runes_of_ascii "MetaData leftPad { chars MetaDataX , } packet repeatCount { char[ 255 ] uint8x `" ++ [233]%N ++ runes_of_ascii "` , } MetaData pack { As Foo , // c
+}")).
+Eval vm_compute in ("<<<M1602>>>" ++ check (runes_of_ascii "packet Header {
+    repeat char[0123456789] BodyLength `" ++ [28040; 24687; 31867; 22411]%N ++ runes_of_ascii "`,
+    zchar[3] chars,// trailing space 
+    A,
+}//")).
+Eval vm_compute in ("<<<M49>>>" ++ check (runes_of_ascii "options  { f32a = true;  metadata =""CRC32"" ;
+body // " ++ [27880; 37322]%N ++ runes_of_ascii "
+=
+char ; A =
+float64	;
+} MetaData
+    rootA { }")).
+Eval vm_compute in ("<<<M671>>>" ++ check (runes_of_ascii "// @lengthOf(
+packet i8i8 { u128 o , }
+options { MetaDataX = true;
+    BodyLength =""packet"" x_y_z= 0")).
+Eval vm_compute in ("<<<M883>>>" ++ check (runes_of_ascii "packet A {
+  match k as n {
+    [1, ""bb"", 007, ""d"", 5, ""f"", 7, ""h"", 9, ""j""] : B
+    2 : C
+  },
+}")).
+Eval vm_compute in ("<<<M578>>>" ++ check (runes_of_ascii "
+packet
+    asx {match u128 as as lengthOf
+{
+//	t
+// `tick` ""quote"" 'q'
+255 : x ,
+    } ,	}")).
+Eval vm_compute in ("<<<M633>>>" ++ check (runes_of_ascii "
+packet
+    asx {match u128 as `lengthOf
+{
+//	t
+// `tick` ""quote"" 'q'
+255 : x ,
+    } ,	}")).
+Eval vm_compute in ("<<<M562>>>" ++ check (runes_of_ascii "
+packet
+    asx match u128 as lengthOf
+{
+//	t
+// `tick` ""quote"" 'q'
+255 : x ,
+    } ,	}")).
+Eval vm_compute in ("<<<M570>>>" ++ check (runes_of_ascii "
+packet
+    asx {{ u128 as lengthOf
+{
+//	t
+// `tick` ""quote"" 'q'
+255 : x ,
+    } ,	}")).
+Eval vm_compute in ("<<<M832>>>" ++ check (runes_of_ascii "packet A {
+  match k as n {
+    [""a"", 22, ""c c"", 4, ""e"", 66] : B,
+    2 : C
+  },
+}")).
+Eval vm_compute in ("<<<M1251>>>" ++ check (runes_of_ascii "packet
+Inner
+	{u8	a 
+,
+} root
+	packet 
+P
+{ Inner	ref_obj,  u8	x
+,
 
-  MetaData 
+    }
+
+")).
+Eval vm_compute in ("<<<M1862>>>" ++ check (runes_of_ascii "packet A {
+    @leftPad()
+    char[4] x,
+    @rightPad()
+    zchar[2] y,
+}")).
+Eval vm_compute in ("<<<M877>>>" ++ check (runes_of_ascii "packet A { Inner { match k as n { [1,22,007,4,5,66,7,8,9] : B, }, }, }")).
+Eval vm_compute in ("<<<M653>>>" ++ check (runes_of_ascii "// @lengthOf(
+packet i8i8 { u128 o , }
+options { MetaDataX = true")).
+Eval vm_compute in ("<<<M314>>>" ++ check (runes_of_ascii "root packet string_{
+char[] matchKey ,
+} packet x {
+    } 	 ")).
+Eval vm_compute in ("<<<M767>>>" ++ check (runes_of_ascii "@rightPad char[] string u16 @tag( @lengthOf( as packet ,")).
+Eval vm_compute in ("<<<M1200>>>" ++ check (runes_of_ascii "packet
 // c
-u
-    { } ")).
-Eval vm_compute in ("<<<M713>>>" ++ check (runes_of_ascii "// @lengthOf(
-packet i8i8")).
-Eval vm_compute in ("<<<M1069>>>" ++ check (runes_of_ascii "// a// bpacket A {}")).
-Eval vm_compute in ("<<<M1042>>>" ++ check (runes_of_ascii "// c 	
+body { i32 f32a `{ , }` , } options { }")).
+Eval vm_compute in ("<<<M375>>>" ++ check (runes_of_ascii "options {Foo = '0'	;	Pad = '0';	crc ='0' ; //	t
+}")).
+Eval vm_compute in ("<<<M763>>>" ++ check (runes_of_ascii "@calculatedFrom( true ; MetaData """ ++ [233]%N ++ runes_of_ascii "t" ++ [233]%N ++ runes_of_ascii """ match")).
+Eval vm_compute in ("<<<M1854>>>" ++ check (runes_of_ascii "root packet A {
+    u8 x `
+        x`,
+}")).
+Eval vm_compute in ("<<<M54>>>" ++ check (runes_of_ascii "options
+{ T= '0' ;A= u8 ;
+    } 	 ")).
+Eval vm_compute in ("<<<M959>>>" ++ check (runes_of_ascii "packet A {
+    u8 x `tab
+	x`,
+}")).
+Eval vm_compute in ("<<<M759>>>" ++ check (runes_of_ascii "= u64 ; u32 MetaData packet {")).
+Eval vm_compute in ("<<<M1867>>>" ++ check (runes_of_ascii "// c x
+    packet A { }
+
+")).
+Eval vm_compute in ("<<<M1105>>>" ++ check (runes_of_ascii "MetaData // c
+tag { }")).
+Eval vm_compute in ("<<<M1131>>>" ++ check (runes_of_ascii "MetaData
+// c
+u { }")).
+Eval vm_compute in ("<<<M1022>>>" ++ check (runes_of_ascii "// c" ++ [8239]%N ++ runes_of_ascii "
 packet A {
 }")).
-Eval vm_compute in ("<<<M1011>>>" ++ check (runes_of_ascii "packet A {
-}
-// c" ++ [8232]%N)).
-Eval vm_compute in ("<<<M984>>>" ++ check (runes_of_ascii "packet A {
-}// c" ++ [160]%N)).
-Eval vm_compute in ("<<<M46>>>" ++ check (runes_of_ascii "//x
-
-// a // b
+Eval vm_compute in ("<<<M1004>>>" ++ check (runes_of_ascii "packet A {
+}// c" ++ [8202]%N)).
+Eval vm_compute in ("<<<M566>>>" ++ check (runes_of_ascii "
+packet
+    asx")).
+Eval vm_compute in ("<<<M1804>>>" ++ check (runes_of_ascii "// " ++ [27880; 37322]%N ++ runes_of_ascii "
+ 
 ")).
-Eval vm_compute in ("<<<M29>>>" ++ check (runes_of_ascii "// " ++ [27880; 37322]%N ++ runes_of_ascii "
-
-")).
-Eval vm_compute in ("<<<M1649>>>" ++ check (runes_of_ascii "
-//
-")).
+Eval vm_compute in ("<<<M765>>>" ++ check (runes_of_ascii "/" ++ [65533; 65533; 65533]%N)).
